@@ -222,7 +222,9 @@ func c29Check(c *mc.Check, w *c28wWorld, o *c28wOut) bool {
 func TestVerifC29(t *testing.T) {
 	c := mc.Begin(t, "C29", "model_checking")
 	defer c.End()
-	c.Assume("history half only: one goroutine, operations are atomic calls of the real entry points; the schedules (E1) half of the property is not covered here")
+	e1s, e1p := c29E1(c, "C29")
+	defer func() { c.Set("e1_schedules", e1s); c.Set("e1_choice_points", e1p) }()
+	c.Assume("history half: one goroutine, operations are atomic calls of the real entry points; schedules half: 5 scenarios of 2-3 threads under the controlled scheduler to a preemption bound")
 	c.Assume("index randomness replaced by a scripted generator (vrand shim behind handshake_manager.go's crypto/rand import): the first served value is an explorer choice out of 0..3 (collision scenarios) and the generator then counts upwards, so a retry loop ends as soon as a free value exists")
 	c.Assume("eviction by the per-address cap counts as removing the evicted tunnel; a RemoteIndexes entry overwritten by a newly added tunnel with the same remote index is shadowing, not removal (remote indexes are chosen by peers)")
 	stats := &c28wStats{}
